@@ -18,7 +18,9 @@ THEOREMS = ["C11_emit_skip_loop_terminates", "C11_last_idx_back_loop_terminates"
 # token alphabet of the quantifier: section markers, names, types, backticks, colons, newlines, indentation
 ALPHA = ["\n", "    ", " ", "\t", ":param x:", ":type x:", ":return:", ":rtype:", "Args:", "Returns:", "Raises:", "Parameters\n----------",
          "Returns\n-------", "x", "x : int", "int", "```int```", "`a`", ":", "Defaults to 5", " or ", " of ", "'a'", '"b",', "List",
-         "--", "   \n"]
+         "--", "   \n",
+         # a heading without its underline / body (a docstring cut off after the heading), an entry cut off after its colon, a summary line
+         "Parameters", "Returns", "x :", "Summary line.\n\n", "----------"]
 WATCHDOG = 3.0
 
 
@@ -259,7 +261,21 @@ def gen_texts(ctx):
     n_rand = 400 if ctx.quick else 6000
     for _ in range(n_rand):
         texts.append("".join(rng.choice(ALPHA) for _ in range(rng.randint(3, 14))))
+    # every prefix of a complete docstring of each style (a docstring cut off at any character: mid-heading, after a colon, mid-type),
+    # flush-left and indented
+    for full in FULL_DOCSTRINGS:
+        for ind in ("", "    "):
+            body = "\n".join(ind + l if l else l for l in full.split("\n"))
+            for k in range(1, len(body) + 1):
+                if ctx.quick and k % 2 and body[k - 1] not in ":-\n":
+                    continue
+                texts.append(body[:k])
     return list(dict.fromkeys(texts))
+
+
+FULL_DOCSTRINGS = ["Scale x.\n\nParameters\n----------\nx : float\n    the value\nfactor : int\n    the factor\n\nReturns\n-------\nfloat\n    scaled\n",
+                   "Scale x.\n\n:param x: the value\n:type x: ```float```\n\n:return: scaled\n:rtype: ```float```\n",
+                   "Scale x.\n\nArgs:\n  x (float): the value\n  factor (int): the factor\n\nReturns:\n  float: scaled\n"]
 
 
 def run(ctx):
